@@ -157,9 +157,9 @@ struct Lite {
 fn grid(kind: u8, weights: u8) -> Vec<Config> {
     let crits = ["gini", "entropy"];
     let (depths, mws, mids): (Vec<Option<usize>>, Vec<f32>, Vec<f64>) = if kind == 0 {
-        (vec![None, Some(0), Some(1), Some(2)], vec![1.0, 2.0, 3.0], vec![1e-5, 0.1, 0.3])
+        (vec![None, Some(0), Some(1), Some(2)], vec![1.0, 2.0, 2.5, 3.0, 3.5], vec![1e-5, 0.1, 0.3])
     } else {
-        (vec![None, Some(1), Some(2)], vec![1.0, 2.0], vec![1e-5, 0.1])
+        (vec![None, Some(1), Some(2)], vec![1.0, 2.0, 2.5], vec![1e-5, 0.1])
     };
     // with all weights 0.5 a leaf weight of 2 needs 4 rows per side: use {0.5, 1} there
     let mwl: Vec<f32> = if weights == 2 { vec![0.5, 1.0] } else { vec![1.0, 2.0] };
@@ -1345,8 +1345,8 @@ fn main() {
          includes duplicates with conflicting labels, constant features, single-class sets): 1 feature over {0,1,2} (n <= 5 quick / 6 thorough; quick adds n = 6 with >= 5 classes on the small grid), 1 feature over {0,1,2,3} (n <= 4 / 5), \
          2 features over {0,1}^2 (n <= 4 / 5), 2 features over {0,1,2}^2 (n <= 3 / 4), adjacency families = 4 consecutive floats at 2^24 and 256 (f32), 2^53 and 2^40 (f64) (n <= 3 / 4, <= 3 classes; fit can overflow the stack there), \
          near-equal family {0, 8e-6, 1.6e-5, 2.6e-5, 1} (n <= 4 / 5); label types usize / bool / String; weights none / 1,2,1,2.. / all 0.5; \
-         full grid = {gini, entropy} x max_depth {None,0,1,2} x min_weight_split {1,2,3} x min_weight_leaf {1,2} ({0.5,1} with weights 0.5) x min_impurity_decrease {1e-5,0.1,0.3} (144), \
-         small grid (adjacency / near-equal) = 2 x {None,1,2} x {1,2} x {1,2} x {1e-5,0.1} (48). \
+         full grid = {gini, entropy} x max_depth {None,0,1,2} x min_weight_split {1,2,2.5,3,3.5} (non-integer values: a node reached by floor(v) rows must not be split) x min_weight_leaf {1,2} ({0.5,1} with weights 0.5) x min_impurity_decrease {1e-5,0.1,0.3} (240), \
+         small grid (adjacency / near-equal) = 2 x {None,1,2} x {1,2,2.5} x {1,2} x {1e-5,0.1} (72). \
          evaluation = one fit + full verification of the tree; non-trivial = the fitted tree has at least one split node. Distinct by construction of the enumerators.",
     );
     ctx.assume("oracle routes training rows with the documented rule `feature <= split value` -> left (rustdoc of DecisionTree, and the rule TreeNode::fit applies to build its masks)");
@@ -1385,7 +1385,7 @@ fn main() {
         totals.lock().unwrap().merge(&st);
         *fam_nontrivial.lock().unwrap().entry(l.family).or_default() += st.nontrivial;
         done.fetch_add(1, std::sync::atomic::Ordering::Relaxed);
-        ctx.sample(|| json!({"family": case.family, "float": case.float, "label_type": case.label_type, "x": case.x, "y": case.y, "weights": case.weights, "hash_seed": case.hash_seed, "grid": if l.grid == 0 { "full (144 configurations)" } else { "small (48 configurations)" }}));
+        ctx.sample(|| json!({"family": case.family, "float": case.float, "label_type": case.label_type, "x": case.x, "y": case.y, "weights": case.weights, "hash_seed": case.hash_seed, "grid": if l.grid == 0 { "full (240 configurations)" } else { "small (72 configurations)" }}));
     });
     let t = totals.lock().unwrap().clone();
     let done = done.load(std::sync::atomic::Ordering::Relaxed);
